@@ -22,12 +22,14 @@ import matrix  # noqa: E402
 from matrix import P, rng  # noqa: E402
 
 CONST_PREFIXES = ("add_", "sub_", "mul_", "div_", "rem_", "neg_", "eq_", "ne_", "lt_", "le_",
-                  "gt_", "ge_", "bitand_", "bitor_", "bitxor_", "into_", "try_")
+                  "gt_", "ge_", "bitand_", "bitor_", "bitxor_", "into_", "try_",
+                  # `const fn`s of the corelib (arith2 / pow families)
+                  "pow", "is_zero_", "is_non_zero_")
 SCALARS = set(matrix.UNSIGNED) | set(matrix.SIGNED) | {"felt252"}
 
 
 def templates(only=None):
-    fams = matrix.all_entries(["arith", "cast", "felt"])
+    fams = matrix.all_entries(["arith", "cast", "felt", "arith2", "pow"])
     out = []
     for fam, es in fams.items():
         for e in es:
@@ -151,9 +153,9 @@ def compile_errors(src_path, cfg):
             cur_err = True
         elif ln.startswith("warning"):
             cur_err = False
-        m = re.match(r"\s*--> .*?:(\d+):\d+", ln)
-        if m and cur_err:
-            lines.add(int(m.group(1)))
+        m = re.match(r"\s*--> (.*?):(\d+):\d+", ln)
+        if m and cur_err and os.path.basename(m.group(1)) == os.path.basename(src_path):
+            lines.add(int(m.group(2)))
     return r.returncode == 0, lines, r.stderr
 
 
@@ -262,7 +264,7 @@ def main(args):
         stem = os.path.splitext(os.path.basename(src))[0]
         for k, fn in names:
             e, m, ci, exp, alt = items[k]
-            resp = rp.run(f"{stem}::{stem}::{fn}", [])
+            resp = rp.run(f"{stem}::{stem}::{fn}", [], gas=10**9)
             evaluations += 1
             checked_values += 1
             if not same_result(resp, exp, e.ret.startswith("Option<")):
